@@ -9,7 +9,7 @@
      OPNMIDIplay::LoadMIDI_post                                               (opnmidi_load.cpp)
    Every read is an explicit cursor comparison; nothing but cursor movement, accept/reject and the
    hazards is modelled (no event semantics).  The outcome of a load is
-       [res |-> "acc" | "rej" | "crash" | "resource" | "unk", site |-> function name]
+       [res |-> "acc" | "rej" | "crash" | "resource" | "unk", site |-> function name, why |-> missing guard]
    "crash"    = a read outside the buffer, a null dereference, a division by zero, an exception or an
                 abort leaves the C API (sanitizer build, asserts on) -- site is the innermost library frame;
    "resource" = time or memory not proportional to the input (unbounded loop / growth, allocation of a
@@ -28,11 +28,12 @@ CONSTANT Repaired
 
 ---------------------------------------------------------------------------
 (* outcomes *)
-Acc == [res |-> "acc", site |-> ""]
-Rej == [res |-> "rej", site |-> ""]
-Unk == [res |-> "unk", site |-> ""]
-Crash(site) == [res |-> "crash", site |-> site]
-Hog(site)   == [res |-> "resource", site |-> site]
+Acc == [res |-> "acc", site |-> "", why |-> ""]
+Rej == [res |-> "rej", site |-> "", why |-> ""]
+Unk == [res |-> "unk", site |-> "", why |-> ""]
+UnkW(site, why) == [res |-> "unk", site |-> site, why |-> why]             \* undecided, but IF it crashes (at site, "?" = anywhere) this is why
+Crash(site, why) == [res |-> "crash", site |-> site, why |-> why]          \* why names the missing guard
+Hog(site, why)   == [res |-> "resource", site |-> site, why |-> why]
 Fix(asis, repaired) == IF Repaired THEN repaired ELSE asis
 Safe(o) == o.res \in {"acc", "rej", "unk"}
 
@@ -119,13 +120,13 @@ ParseEvent(V, fmt, p, status, lev, had) ==        \* had: an earlier event of th
            [] q.cls = "big"    -> EvOut(Rej)
            [] q.cls = "neg"    -> IF Repaired THEN EvOut(Rej)          \* repair: compare length with end - ptr
                                   ELSE IF q.np - q.v < 0 THEN          \* the next read is below the buffer:
-                                         (IF q.v - q.np <= 16 THEN EvOut(Crash("readVarLenEx"))   \* inside the allocator's red zone
-                                          ELSE EvOut(Unk))                                          \* somewhere in the heap
+                                         (IF q.v - q.np <= 16 THEN EvOut(Crash("readVarLenEx", "sysex-length-wrap"))   \* inside the allocator's red zone
+                                          ELSE EvOut(UnkW("?", "sysex-length-wrap")))               \* somewhere in the heap: undefined from here on
                                   ELSE Ev(q.np - q.v, status, lev, TRUE)     \* the cursor moves BACK: events are parsed again
-           [] q.cls = "negfar" -> EvOut(Fix(Crash("readVarLenEx"), Rej))
+           [] q.cls = "negfar" -> EvOut(Fix(Crash("readVarLenEx", "sysex-length-wrap"), Rej))
            [] OTHER            -> EvOut(Fix(Unk, Rej))
   ELSE IF b0 = 255 THEN                           \* meta: type byte read without a bound check
-    IF p + 1 >= L THEN EvOut(Fix(Crash("parseEvent"), Rej))
+    IF p + 1 >= L THEN EvOut(Fix(Crash("parseEvent", "meta-type-read"), Rej))
     ELSE LET ty == VAt(V, p + 1)
              q == Vlq(V, p + 2) IN
       IF ~q.ok THEN EvOut(Rej)
@@ -133,10 +134,10 @@ ParseEvent(V, fmt, p, status, lev, had) ==        \* had: an earlier event of th
                   IF q.np + q.v > L THEN EvOut(Rej)
                   ELSE IF ty = 47 THEN EvEot(lev)
                   ELSE IF ty = 228 /\ q.v = 0 /\ ~Repaired /\ (lev \/ ~had)     \* FF E4 00 = internal "loop stack begin" subtype without its data byte:
-                       THEN (IF lev THEN EvOut(Unk) ELSE EvOut(Crash("buildSmfTrackData")))   \* data[0] of a vector that never held anything (null)
+                       THEN (IF lev THEN EvOut(UnkW("buildSmfTrackData", "loopstack-no-data")) ELSE EvOut(Crash("buildSmfTrackData", "loopstack-no-data")))   \* data[0] of a vector that never held anything (null)
                   ELSE Ev(q.np + q.v, status, lev \/ ty \in LoopMeta, q.v > 0 /\ ty # 6)
              [] q.cls = "big" -> EvOut(Rej)
-             [] q.cls \in {"neg", "negfar"} -> EvOut(Fix(Crash("parseEvent"), Rej))   \* check wraps, std::string(ptr, 2^64-k) throws
+             [] q.cls \in {"neg", "negfar"} -> EvOut(Fix(Crash("parseEvent", "meta-length-wrap"), Rej))   \* check wraps, std::string(ptr, 2^64-k) throws
              [] OTHER -> EvOut(Fix(Unk, Rej))
   ELSE
     LET run == b0 < 128
@@ -154,7 +155,7 @@ ParseEvent(V, fmt, p, status, lev, had) ==        \* had: an earlier event of th
 (* buildSmfTrackData for one track: first delta, then event / delta pairs *)
 RECURSIVE WalkFrom(_, _, _, _, _, _, _)
 WalkFrom(V, fmt, p, status, lev, had, steps) ==
-  IF steps > 2 * VLen(V) + 8 THEN [o |-> Hog("buildSmfTrackData"), lev |-> lev]     \* only reachable through the backward move
+  IF steps > 2 * VLen(V) + 8 THEN [o |-> Hog("buildSmfTrackData", "sysex-length-wrap"), lev |-> lev]     \* only reachable through the backward move
   ELSE IF VInLongRep(V, p) THEN [o |-> Unk, lev |-> lev]
   ELSE LET ev == ParseEvent(V, fmt, p, status, lev, had) IN
     IF ev.k = "eot" THEN [o |-> Acc, lev |-> ev.lev]
@@ -184,7 +185,7 @@ Chunks(I, p, k, acc) ==
            lo == BE16(I, p + 6)
            av == N(I) - (p + 8) IN
     \* rawTrackData[tk].resize(declared length) happens before the length is compared with what the file has
-    IF hi >= 8192 THEN [k |-> "out", t |-> <<>>, o |-> Fix(Hog("parseSMF"), Rej)]          \* >= 512 MiB zero-filled
+    IF hi >= 8192 THEN [k |-> "out", t |-> <<>>, o |-> Fix(Hog("parseSMF", "declared-track-length"), Rej)]          \* >= 512 MiB zero-filled
     ELSE IF hi >= 2048 THEN [k |-> "out", t |-> <<>>, o |-> Fix(Unk, Rej)]                 \* 128..512 MiB: depends on the allocator
     ELSE IF hi > 0 \/ lo > av THEN [k |-> "out", t |-> <<>>, o |-> Rej]
     ELSE Chunks(I, p + 8 + lo, k - 1, Append(acc, <<p + 8, p + 8 + lo>>))
@@ -199,7 +200,7 @@ ParseSMF(I, off, fmt) ==
     ELSE LET w == WalkTracks([i \in DOMAIN ch.t |-> View(I, ch.t[i][1], ch.t[i][2], <<>>)], fmt, 1, FALSE) IN
          \* division 0: the tick length is the fraction 1/0; the first product with a non-zero delay or tempo divides by
          \* zero (fraction::Optim) while the time line is built or later while playing -- not decided by this model
-         IF w.res = "acc" /\ BE16(I, off + 12) = 0 THEN Unk ELSE w
+         IF w.res = "acc" /\ BE16(I, off + 12) = 0 THEN UnkW("Optim", "division-zero") ELSE w
 
 ParseGMF(I) == Walk(View(I, 7, N(I), EndTag), "midi", FALSE).o
 ParseRSXX(I) == Walk(View(I, At(I, 0), N(I), <<0>>), "rsxx", FALSE).o
@@ -216,7 +217,7 @@ ParseCMF(I) ==
     ELSE IF ticks = 0 /\ Repaired THEN Rej
     ELSE IF musStart >= n THEN Rej
     ELSE LET w == Walk(View(I, musStart, n, <<>>), "cmf", FALSE).o IN
-         IF w.res = "acc" THEN (IF ticks = 0 THEN Unk ELSE Rej)    \* parsed, then refused by LoadMIDI_post ("doesn't support CMF"); ticks 0: see ParseSMF
+         IF w.res = "acc" THEN (IF ticks = 0 THEN UnkW("Optim", "division-zero") ELSE Rej)    \* parsed, then refused by LoadMIDI_post ("doesn't support CMF"); ticks 0: see ParseSMF
          ELSE w
 
 ---------------------------------------------------------------------------
@@ -239,7 +240,7 @@ DetectRSXX(I) == At(I, 0) >= 93 /\ At(I, 0) < 128 /\ N(I) > At(I, 0) /\ Match(I,
 ---------------------------------------------------------------------------
 (* Convert_mus2midi: the score walk; operands and delay bytes are read without comparing with the score end *)
 MusView(I) == View(I, 0, N(I), <<>>)
-MusOob == Fix(Crash("Convert_mus2midi"), Rej)
+MusOob == Fix(Crash("Convert_mus2midi", "read-past-score"), Rej)
 RECURSIVE MusWalk(_, _, _, _)
 RECURSIVE MusDelay(_, _, _, _, _)
 MusWalk(I, cur, end, steps) ==
@@ -297,7 +298,7 @@ Sat(x) == IF x > Far THEN Far ELSE IF x < 0 - Far THEN 0 - Far ELSE x
 XChk(pos, k, S) == IF pos + k >= 0 THEN pos + k > S ELSE TRUE
 XPosLt(pos, S) == pos >= 0 /\ pos < S
 XCanRead(pos, n, S) == pos >= 0 /\ pos + n < S
-XCrash(site) == Fix(Crash(site), Rej)
+XCrash(site) == Fix(Crash(site, "unchecked-read"), Rej)
 XOut(o) == [k |-> "out", o |-> o, tracks |-> 0, pos |-> 0, num |-> 0, clean |-> TRUE, ppqn |-> 0]
 
 RECURSIVE XInfoLoop(_, _, _, _, _)
@@ -312,7 +313,7 @@ XInfoLoop(I, pos, i, len, steps) ==           \* for (i = 4; i < len; i++) over 
       LET sk == UEven(cl) IN
       IF AsI32(sk) = 0 - 8 THEN
         \* skipsrc(-8): the cursor is back on the same chunk and i advances by 1 per round: len - i rounds
-        (IF len[1] - i[1] >= 4096 THEN XOut(Fix(Hog("xmi2mid_ParseXMI"), Rej))       \* >= 2^28 rounds
+        (IF len[1] - i[1] >= 4096 THEN XOut(Fix(Hog("xmi2mid_ParseXMI", "chunk-length-loop"), Rej))       \* >= 2^28 rounds
          ELSE IF len[1] - i[1] >= 16 THEN XOut(Fix(Unk, Rej))                        \* 2^20 .. 2^28 rounds: seconds, not decided here
          ELSE [XOut(Acc) EXCEPT !.k = "ok"])
       ELSE XInfoLoop(I, Sat(pos + 8 + AsI32(sk)), UAdd(UAddU(i1, sk), 1), len, steps + 1)
@@ -419,7 +420,7 @@ XTracks(I, pos, num, tracks, clean, steps) ==
                   XOut(XCrash(IF XCanRead(p + 2 + 6 * j, 2, S) THEN "xmi2mid_read4le" ELSE "xmi2mid_read2"))
            ELSE XTracks(I, nxt, num, tracks, clean, steps + 1))
       ELSE IF ~XMatch(I, b, EVNT) THEN
-        (IF Sat(p + AsI32(UEven(len))) = pos THEN XOut(Fix(Hog("xmi2mid_ExtractTracksFromXmi"), Rej))    \* skipsrc(-(8 or 20)): same chunk for ever, the loop has no counter
+        (IF Sat(p + AsI32(UEven(len))) = pos THEN XOut(Fix(Hog("xmi2mid_ExtractTracksFromXmi", "chunk-length-loop"), Rej))    \* skipsrc(-(8 or 20)): same chunk for ever, the loop has no counter
          ELSE XTracks(I, Sat(p + AsI32(UEven(len))), num, tracks, clean, steps + 1))
       ELSE LET e == XEvents(I, p, FALSE, 500000, TRUE, 0) IN
         IF e.k = "out" THEN e
@@ -432,7 +433,7 @@ ParseXMI(I, sel) ==
   ELSE LET t == XTracks(I, h.pos, 0, h.tracks, TRUE, 0) IN
     IF t.k = "out" THEN t.o
     ELSE IF t.num # h.tracks THEN Rej
-    ELSE IF sel < 0 /\ ~Repaired THEN Crash("parseXMI")       \* m_rawSongsData[-1]: only ">= size" is clamped
+    ELSE IF sel < 0 /\ ~Repaired THEN Crash("parseXMI", "song-index")       \* m_rawSongsData[-1]: only ">= size" is clamped
     ELSE IF ~t.clean THEN Unk                                 \* converted data bytes >= 0x80 / system statuses: re-parse not modelled
     ELSE Acc
 
